@@ -27,6 +27,7 @@ def cases(tier, seed):
     for bits in (2, 4):
         shapes = [(1,), (3,), (4, 2), (5, 3), (2, 2, 3)] if tier == "quick" else [(1,), (2,), (3,), (7,), (4, 2), (5, 3), (9, 2), (2, 2, 3), (3, 1, 2, 2)]
         out.append(dict(kind="kernels", bits=bits, shapes=[list(s) for s in shapes]))
+        out.append(dict(kind="history", bits=bits, shapes=[[3], [4, 2], [2, 2, 3]]))
         out.append(dict(kind="ops", bits=bits, shapes=[[5, 3], [4], [3, 2, 2]] if tier == "quick" else [[5, 3], [4], [3, 2, 2], [7, 2], [9], [8, 1, 2]]))
     return out
 
@@ -206,6 +207,50 @@ def run_case(case, res):
                         res.candidate("kernel-agreement", "BIT", dict(kind="kernels", bits=bits, route=name, layout=lname, t=api.enc_tensor(api.tensor_from_values(vals, shape, torch.uint8))), exact=True)
         return
 
+    if case["kind"] == "history":
+        # results of earlier unpack calls must not be affected by later calls (no hidden shared workspace): two different
+        # symbolic byte tensors of the same shape are unpacked one after the other on every route, both results are read at the end
+        from optimum.quanto.library.ext.cpp import ext
+
+        from symt import cppext
+
+        try:
+            lib = cppext.load()
+        except Exception:
+            lib = None
+        vpi = 8 // bits
+        for shape in case["shapes"]:
+            shape = tuple(shape)
+            t1 = torch.randint(0, 256, shape, dtype=torch.uint8)
+            t2 = torch.randint(0, 256, shape, dtype=torch.uint8)
+            routes = {"py": lambda t: torch.ops.quanto_py.unpack(t, bits), "routed": lambda t: torch.ops.quanto.unpack(t, bits)}
+            for rname, fn in routes.items():
+                for ext_state in ("raising", "built") if rname == "routed" and lib is not None else ("raising",):
+                    ext._lib = cppext.Raising() if ext_state == "raising" else lib
+                    with Session(res) as m:
+                        X1, X2 = m.symbolic(t1, "a"), m.symbolic(t2, "b")
+                        r1 = fn(t1)
+                        r2 = fn(t2)
+                        r3 = fn(t1)
+                        R1, R2, R3 = m.read(r1), m.read(r2), m.read(r3)
+                    b = bit.Bit(m.ctx)
+
+                    def oracle(X):
+                        Xz = np.vectorize(lambda x: b.tr(x), otypes=[object])(X)
+                        parts = [np.vectorize(lambda z, i=i: z3.LShR(z, bits * i) & (2**bits - 1), otypes=[object])(Xz) for i in range(vpi)]
+                        return np.concatenate(parts, axis=0).reshape(-1)
+
+                    O1, O2 = oracle(X1), oracle(X2)
+                    neq = [b.tr(x) != o for x, o in zip(R1.reshape(-1), O1)] + [b.tr(x) != o for x, o in zip(R2.reshape(-1), O2)] + [b.tr(x) != o for x, o in zip(R3.reshape(-1), O1)]
+                    v, secs, model = api.solve([z3.Or(*neq)], 60)
+                    res.query("earlier-results-unaffected-by-later-calls", "BIT", v, secs, sub=f"{rname}/{ext_state} {shape}", nvars=2 * t1.numel())
+                    if v == "sat":
+                        a_ = api.tensor_from_values(api.model_values(b, model, X1), shape, torch.uint8)
+                        b_ = api.tensor_from_values(api.model_values(b, model, X2), shape, torch.uint8)
+                        res.candidate("history", "BIT", dict(kind="history", bits=bits, route=rname, ext=ext_state, t=api.enc_tensor(a_), t2=api.enc_tensor(b_)), exact=True)
+            ext._lib = lib
+        return
+
     if case["kind"] == "ops":
         for shape in case["shapes"]:
             shape = tuple(shape)
@@ -288,6 +333,22 @@ def replay(rec):
         outs["routed-raising"] = torch.ops.quanto.unpack(t, bits)
         bad = {k: v.tolist() for k, v in outs.items() if v.shape != oracle.shape or not torch.equal(v, oracle)}
         return bool(bad), f"unpack kernels on bytes {t.tolist()} bits={bits}: expected {oracle.tolist()} deviating: {bad}", None
+    if inp["kind"] == "history":
+        from optimum.quanto.library.ext.cpp import ext
+
+        from symt import cppext
+
+        t2 = api.dec_tensor(inp["t2"])
+        ext._lib = cppext.Raising() if inp["ext"] == "raising" else cppext.load()
+        fn = (lambda x: torch.ops.quanto_py.unpack(x, bits)) if inp["route"] == "py" else (lambda x: torch.ops.quanto.unpack(x, bits))
+        vpi = 8 // bits
+        orc = lambda x: torch.cat([(x >> (bits * i)) & (2**bits - 1) for i in range(vpi)])  # noqa
+        r1 = fn(t)
+        r2 = fn(t2)
+        r3 = fn(t)
+        bad = not (torch.equal(r1, orc(t)) and torch.equal(r2, orc(t2)) and torch.equal(r3, orc(t)))
+        pa, pb = PackedTensor.pack(orc(t)[: t.shape[0]] % (2**bits), bits), PackedTensor.pack(orc(t2)[: t.shape[0]] % (2**bits), bits)
+        return bad, f"unpack({t.tolist()}) then unpack({t2.tolist()}): first result now {r1.tolist()}, expected {orc(t).tolist()}", None
     if inp["kind"] == "ops":
         p = PackedTensor.pack(t, bits)
         exp = _apply_op(inp["op"], t)
